@@ -211,6 +211,11 @@ fn queue_file_blocks(
             let mut pos = 0;
             while pos < len {
                 let (next_data, next_hole) = next_sparse_segments(&harc.infd, &harc.outfd, pos)?;
+                if next_hole <= pos {
+                    // The source shrank below `pos`; the walk would
+                    // never reach `len`.
+                    return Err(XcpError::CopyError(format!("Source file ended prematurely: {:?}", harc.infd)).into());
+                }
                 queued += queue_file_range(&harc, next_data..next_hole, pool, status_channel, failed)?;
                 pos = next_hole;
             }
